@@ -162,6 +162,31 @@ def py7zr_read(data):
             got = {}
             for n, b in fac.as_list():
                 got.setdefault(n, []).append(b)
+            ms = z.header.main_streams
+            nfolders = len(ms.unpackinfo.folders) if ms is not None and ms.unpackinfo is not None else 0
+        if nfolders >= 2:
+            # the same archive opened BY NAME: several folders are then decoded by one thread per folder, each of which
+            # opens the file itself and seeks to its own packed stream -- a second implementation of the position arithmetic
+            import tempfile
+            d = tempfile.mkdtemp(prefix="c06n_")
+            try:
+                pth = os.path.join(d, "a.7z")
+                with open(pth, "wb") as fh:
+                    fh.write(data)
+                try:
+                    with py7zr.SevenZipFile(pth, "r") as z2:
+                        fac2 = arch.Collect()
+                        z2.extractall(factory=fac2)
+                        got2 = {}
+                        for n, b in fac2.as_list():
+                            got2.setdefault(n, []).append(b)
+                except Exception as e:  # noqa
+                    return ("err", "by-name:" + type(e).__name__, str(e)[:200])
+                if got2 != got:
+                    return ("err", "by-name:differs", "opened by name (one thread per folder) delivers %r, opened from a stream %r" % (
+                        sorted((n, [len(x) for x in v]) for n, v in got2.items())[:6], sorted((n, [len(x) for x in v]) for n, v in got.items())[:6]))
+            finally:
+                shutil.rmtree(d, ignore_errors=True)
         return ("ok", metas, got)
     except Exception as e:  # noqa
         return ("err", type(e).__name__, str(e)[:200])
